@@ -1872,6 +1872,15 @@ class Compiler:
         if local:
             outer[:] = list(self._enter_assignment(names)) + outer
 
+        # An enclosing loop over the same name(s) gets its entry in the
+        # repeat dictionary back when this loop has finished
+        repeat_backup = identifier("__repeat", id(node))
+        outer += template(
+            "try: BACKUP = getname('repeat')[key]\n"
+            "except KeyError: BACKUP = __marker",
+            key=key, BACKUP=repeat_backup
+        )
+
         outer += template(
             "__iterator, INDEX = getname('repeat')(key, __iterator)",
             key=key, INDEX=index
@@ -1904,6 +1913,11 @@ class Compiler:
             body=assignment + inner,
             orelse=[],
         )]
+
+        outer += template(
+            "if BACKUP is not __marker: getname('repeat')[key] = BACKUP",
+            key=key, BACKUP=repeat_backup
+        )
 
         # Finally, clean up assignment if it's local
         if outer:
